@@ -158,6 +158,15 @@ def seeded(S: list[tuple[str, str]] | list[tuple[str, str, str]], fm: dict[str, 
     return {x: (seeds[x] if x in seeds else ("<dir>" if r.endswith("/") else r)) for x, r in fm.items()}
 
 
+def perms(n: int) -> list[tuple[int, ...]]:
+    """ModuleMap.tla's Perms: every order of up to 4 base directories, 2n rotations beyond."""
+    if n <= 4:
+        return list(itertools.permutations(range(1, n + 1)))
+    out = [tuple(((i + k - 1) % n) + 1 for i in range(1, n + 1)) for k in range(n)]
+    out += [tuple(n - ((i + k - 1) % n) for i in range(1, n + 1)) for k in range(n)]
+    return sorted(set(out))
+
+
 def shadow_witness(files: list[str]) -> bool:
     """A module file beside a directory of the same name that holds files but no __init__."""
     fs = set(files)
@@ -223,7 +232,7 @@ def observe_real(files: list[str], cfg: dict[str, Any], probes: list[str] | None
     # ---- the files of the directory listing, individually, in every order of their base dirs
     finds: dict[tuple[int, ...], dict[str, str]] = {}
     res_nat: dict[str, str] | None = None
-    for pi in itertools.permutations(range(1, len(bases) + 1)):
+    for pi in perms(len(bases)):
         order = [p for k in pi for _, p, b in D if b == bases[k - 1]]
         Fl, fsc = listing([_abs(p) for p in order], opts, cwd)
         if {(m, p) for m, p, _ in Fl} != Dset:
@@ -252,8 +261,8 @@ def observe_real(files: list[str], cfg: dict[str, Any], probes: list[str] | None
             flags.append(("b2", {"only_files": sorted(Aset - Dset), "only_dir": sorted(Dset - Aset)}))
         if whole:
             basesA = distinct_bases(A)
-            for pi in itertools.permutations(range(len(basesA))):
-                order = [(m, p, b) for k in pi for m, p, b in A if b == basesA[k]]
+            for pi in perms(len(basesA)):
+                order = [(m, p, b) for k in pi for m, p, b in A if b == basesA[k - 1]]
                 fmc = finder_for(order, opts, fscA)
                 for m, p, _ in A:
                     if m != "__main__":
@@ -753,7 +762,7 @@ def main(argv: list[str]) -> int:
     # ---- 2. every emitted world is replayed into the real code as soon as its TLC run has finished
     def run_tlc(job: tuple[str, bool]) -> Any:
         cfg, with_cov = job
-        return cfg, tlc("MC_ModuleMap", cfg, workers=per, coverage=with_cov, timeout=3000, heap="6g")
+        return cfg, tlc("MC_ModuleMap", cfg, workers=per, coverage=with_cov, timeout=3600 if tier == "quick" else 6 * 3600, heap="6g")
 
     side = [("MC_ModuleMap_A2.cfg", True), ("Mut_ModuleMap_AsIs_NoExemption.cfg", False), ("Rep_ModuleMap_InitOnly.cfg", False)]
     agg: dict[str, Any] = {"n": 0, "drift": [], "viol": {}, "exempt": {}, "stats": {}, "errors": []}
@@ -764,7 +773,29 @@ def main(argv: list[str]) -> int:
     t_all = time.time()
     ctx = multiprocessing.get_context("forkserver")
     with ProcessPoolExecutor(NWORK, mp_context=ctx, initializer=_init_worker, initargs=(root, sorted(v.known))) as pool:
-        pending = []
+        pending: list[Any] = []
+
+        def absorb(res: dict[str, Any]) -> None:
+            agg["n"] += res["n"]
+            agg["drift"] += res["drift"]
+            agg["errors"] += res["errors"]
+            for k, n in res["exempt"].items():
+                agg["exempt"][k] = agg["exempt"].get(k, 0) + n
+            for k, n in res["stats"].items():
+                agg["stats"][k] = agg["stats"].get(k, 0) + n
+            for key, ent2 in res["viol"].items():
+                a = agg["viol"].setdefault(key, ent2)
+                if a is not ent2:
+                    a["n"] += ent2["n"]
+            if res["sample"] is not None and len(samples) < 3:
+                samples.append(res["sample"])
+
+        def submit(chunk: list[dict[str, Any]]) -> None:
+            # bounded number of outstanding chunks (the worlds of a thorough run do not fit in memory twice)
+            while len(pending) >= 6 * NWORK:
+                absorb(pending.pop(0).result())
+            pending.append(pool.submit(replay_chunk, chunk))
+
         with ThreadPoolExecutor(7 if tier == "quick" else 5) as ex:
             futs = [ex.submit(run_tlc, j) for j in [(g, False) for g in gens] + side]
             for fut in as_completed(futs):
@@ -801,8 +832,9 @@ def main(argv: list[str]) -> int:
                     for x in ws:
                         by_tree.setdefault(" ".join(sorted(x["tree"])), []).append(x)
                         if not x["shadow"] and x["nonest"] and ((x["cmp"] and x["full"] and len(x["D"]) >= 2) or x["dupD"] or len(x["bases"]) >= 2):
-                            cands.append(json.dumps({"cfg": {k: x[k] for k in ("ns", "epb", "cwd", "mp", "tgt")},
-                                                     "files": sorted(x["tree"])}, sort_keys=True))
+                            kind = "d" if x["dupD"] else ("p" if x["cmp"] and x["full"] else "b")
+                            cands.append(kind + json.dumps({"cfg": {k: x[k] for k in ("ns", "epb", "cwd", "mp", "tgt")},
+                                                            "files": sorted(x["tree"])}, sort_keys=True))
                     del ws
                     tree_keys = sorted(by_tree)
                     random.Random("%d:%s" % (seed, cfg)).shuffle(tree_keys)
@@ -810,30 +842,17 @@ def main(argv: list[str]) -> int:
                     for tk in tree_keys:
                         cur += by_tree[tk]
                         if len(cur) >= 150:
-                            pending.append(pool.submit(replay_chunk, cur))
+                            submit(cur)
                             cur = []
                     if cur:
-                        pending.append(pool.submit(replay_chunk, cur))
+                        submit(cur)
                     del by_tree
                 cov[cfg] = ent
         t_tlc = time.time() - t_all
         if n_worlds < 1000 and not model_violation:
             raise MachineryError("too few worlds emitted: %d" % n_worlds)
-        for fut in pending:
-            res = fut.result()
-            agg["n"] += res["n"]
-            agg["drift"] += res["drift"]
-            agg["errors"] += res["errors"]
-            for k, n in res["exempt"].items():
-                agg["exempt"][k] = agg["exempt"].get(k, 0) + n
-            for k, n in res["stats"].items():
-                agg["stats"][k] = agg["stats"].get(k, 0) + n
-            for key, ent2 in res["viol"].items():
-                a = agg["viol"].setdefault(key, ent2)
-                if a is not ent2:
-                    a["n"] += ent2["n"]
-            if res["sample"] is not None and len(samples) < 3:
-                samples.append(res["sample"])
+        while pending:
+            absorb(pending.pop(0).result())
         t_rep = time.time() - t_all - t_tlc
         if agg["errors"]:
             raise MachineryError("replay raised: " + agg["errors"][0])
@@ -853,7 +872,12 @@ def main(argv: list[str]) -> int:
         # ---- 3. end-to-end confirmation on samples (in-process builds, then the real command line)
         cands.sort()
         rnd.shuffle(cands)
-        jobs = [json.loads(c) for c in cands[:n_in]]
+        strata: dict[str, list[str]] = {"d": [], "p": [], "b": []}
+        for c in cands:
+            strata[c[0]].append(c[1:])
+        take = {"d": n_in // 5, "p": n_in // 2, "b": n_in - n_in // 5 - n_in // 2}
+        jobs = [json.loads(c) for k in ("p", "b", "d") for c in strata[k][:take[k]]]
+        rnd.shuffle(jobs)
         t_e2e = time.time()
         e2e: list[dict[str, Any]] = []
         for outl in pool.map(run_jobs, ["e2e_inprocess"] * NWORK, [jobs[i::NWORK] for i in range(NWORK)]):
@@ -886,7 +910,7 @@ def main(argv: list[str]) -> int:
         "distinct_nontrivial": st.get("nontrivial", 0),
         "rule": "every world TLC generates for the tier's configurations (all trees of <= %d files over four 12-path "
                 "universes x 3 option settings x 3 working directories x 2 mypy_path settings x 2 target directories) is "
-                "materialised and replayed; non-trivial = more than one base directory, or a stub file, or a duplicate "
+                "materialised and replayed (file orders: every order of up to 4 base directories, 2n rotations beyond); non-trivial = more than one base directory, or a stub file, or a duplicate "
                 "module, or a comparable -p package" % (4 if tier == "quick" else 8),
         "exhaustive": True,
         "worlds_replayed": agg["n"],
